@@ -1,5 +1,5 @@
 import logging
-from typing import Optional, Tuple
+from typing import List, Optional, Tuple
 from threading import Thread
 from itertools import product
 
@@ -104,10 +104,20 @@ class BilinearForm(Form):
                                             range(vbasis.Nbfun))]
             )
 
+            # an exception raised in a thread would otherwise be lost and
+            # the corresponding part of the matrix left zero
+            errors: List[BaseException] = []
+
+            def worker(*args):
+                try:
+                    self._threaded_kernel(*args)
+                except BaseException as e:
+                    errors.append(e)
+
             # split local stiffness matrix elements to threads
             threads = [
                 Thread(
-                    target=self._threaded_kernel,
+                    target=worker,
                     args=(data, ix, ubasis.basis, vbasis.basis, wdict, dx)
                 ) for ix in np.array_split(indices, self.nthreads, axis=0)
             ]
@@ -117,6 +127,8 @@ class BilinearForm(Form):
                 t.start()
             for t in threads:
                 t.join()
+            if len(errors) > 0:
+                raise errors[0]
 
         data = data.flatten('C')
 
